@@ -160,7 +160,8 @@ pub fn phase_one(&self, parent_idx: TreeIndex, poly: &Polytope, counter: &mut Pe
     ensures
         // reaching this point at all: none of the unwraps / expects / asserts of the traversal can fire, whatever the LP layer answers
         final(self).tree.wf(), final(self).tree.root == old(self).tree.root, final(self).in_dim == old(self).in_dim,
-        // nothing is added, every surviving node keeps its function (only cached states change), cached witness lists stay non-empty
+        // nothing is added, every surviving node keeps its function and its kind - a decision never becomes a terminal - (only cached states change),
+        // cached witness lists stay non-empty
         kept_ok(old(self).a(), final(self).a(), old(self).in_dim),
 //@hint loop 1 before
         let ghost a0 = self.a();
@@ -250,7 +251,7 @@ pub fn phase_one(&self, parent_idx: TreeIndex, poly: &Polytope, counter: &mut Pe
         proof {
             lemma_el_stack_ok(self.a(), root, g_stack, vis, root, d0);
         }
-//@loop 2
+//@loop 2 contract
             invariant
                 K == 2, self.in_dim == old(self).in_dim, self.tree.root == Some(root), self.tree.wf(),
                 kept_ok(a0, self.a(), self.in_dim), a0 == old(self).a(), a0.dom().len() <= i32::MAX,
